@@ -85,10 +85,37 @@ Proof.
   exact (K l rr Pt0 O2 Pz2 CF).
 Qed.
 
+(* the cache load in front of the body touches neither registry tables nor files: the precondition survives it *)
+Lemma FA_after_load_dc : forall P m, FA P m -> FA P (load_dc ;; m).
+Proof.
+  intros P m Hm s s' r H. unfold bind in H. destruct (load_dc s) as [s1 r1] eqn:E.
+  assert (K : Mono s s1 /\ cur s1 = cur s /\ fs s1 = fs s /\ ext s1 = ext s /\ ptr s1 = ptr s /\
+              (r1 <> Normal -> cfault s1 = cfault s)).
+  { unfold load_dc in E. destruct (dcache s).
+    - inversion E; subst. split; [apply Mono_refl | repeat split; auto].
+    - unfold ev, upd in E. destruct (tick s) as [s2 b] eqn:T. tk T.
+      assert (M0 : Mono s (set_fuse x s)) by (apply Mono_set_fuse; intro F; apply TN; auto).
+      destruct b; inversion E; subst; simpl.
+      + split; [exact M0 | repeat split; auto].
+      + split; [apply (Mono_trans _ (set_fuse x s)); [exact M0 | apply Mono_of; reflexivity] | repeat split; auto]. }
+  destruct K as (M1 & C1 & F1 & X1 & P1 & _).
+  destruct r1.
+  - destruct (Hm _ _ _ H) as (M2 & K2). split; [eapply Mono_trans; eauto|].
+    intros l rest Pt0 O Pz CF.
+    assert (O1 : no_orphan s1) by (apply (no_orphan_of s); auto).
+    assert (Pz1 : holds P s1) by (unfold holds in *; rewrite C1, F1, X1; exact Pz).
+    destruct (K2 l rest (eq_trans P1 Pt0) O1 Pz1 CF) as (O2 & l' & Q1 & Q2).
+    split; [exact O2|]. exists l'. split; [exact Q1|].
+    intros t Ft Et. destruct (Q2 t Ft Et) as (A & B). rewrite <- F1, <- X1. auto.
+  - inversion H; subst. split; [exact M1|]. intros l rest Pt0 O _ _.
+    split; [apply (no_orphan_of s); auto|]. exists []. split; [rewrite P1; exact Pt0|].
+    apply restores_nil; [rewrite F1 | rewrite X1]; apply feq_refl.
+Qed.
+
 Lemma FAc_transfer_op : forall d, FAc (Pt d) (exec_op shipped (Transfer d)).
 Proof.
-  intro d; simpl. rewrite do_transfer_unfold. apply FAc_butler_txn; [apply FA_transfer_body|].
-  repeat first [ apply WB_bind | apply WB_ev | apply WB_guard | apply WB_with_ds | apply WB_xfer_ds | (apply WB_upd; keeps) ].
+  intro d; simpl. rewrite do_transfer_unfold. apply FAc_butler_txn; [apply FA_after_load_dc, FA_transfer_body|].
+  repeat first [ apply WB_bind | apply WB_ev | apply WB_guard | apply WB_with_ds | apply WB_xfer_ds | apply WB_load_dc | (apply WB_upd; keeps) ].
 Qed.
 
 Lemma transfer_files_atomic_p : forall d s s' h,
@@ -152,9 +179,9 @@ Qed.
 
 Lemma FAc_import_op : forall d, FAc (Pi d) (exec_op shipped (ImportDs d)).
 Proof.
-  intro d; simpl. unfold do_import. apply FAc_butler_txn; [apply FA_import_body|].
+  intro d; simpl. unfold do_import. apply FAc_butler_txn; [apply FA_after_load_dc, FA_import_body|].
   repeat first [ apply WB_bind | apply WB_ev | apply WB_ret | apply WB_guard | apply WB_with_ds | apply WB_reg_undo
-               | apply WB_stored_rows | (apply WB_upd; keeps) ].
+               | apply WB_load_dc | apply WB_stored_rows | (apply WB_upd; keeps) ].
 Qed.
 
 Lemma import_files_atomic_p : forall d s s' h,
